@@ -116,121 +116,207 @@ theorem findBox_quarantineBoundary (areas : IRaster) (v : Int) (hv : 0 < v) :
     rw [this, Option.getD_none]
     exact foldBox_init _ _ c cs hr
 
-/-! ### closest direction, integer resolutions -/
+/-! ### first minimum of a list of (exact distance, side) pairs -/
 
-theorem lround_intCast (k : Int) : lround (k : Rat) = k := by
-  have hhalf : ((1 / 2 : Rat)).floor = 0 := by
-    have h1 : (0 : Int) ≤ (1/2 : Rat).floor := Rat.le_floor_iff.mpr (by grind)
-    have h2 : (1/2 : Rat).floor < (1 : Int) := Rat.floor_lt_iff.mpr (by grind)
-    omega
-  unfold lround
-  split
-  · rw [Rat.add_comm, Rat.floor_add_intCast, hhalf]; omega
-  · rw [← Rat.intCast_neg, Rat.add_comm, Rat.floor_add_intCast, hhalf]; omega
+/-- The earlier pair `a` stays unless the later pair `b` is strictly nearer. -/
+def better (a b : Rat × Dir) : Rat × Dir := if b.1 < a.1 then b else a
 
-/-- `CD.step` on an integer distance. -/
-def stepI (c : CD) (t : Bool × Int × Dir) : CD :=
-  if t.1 = true ∧ t.2.1 < c.mind then ⟨t.2.1, t.2.1, t.2.2⟩ else c
+theorem better_assoc (a b c : Rat × Dir) : better (better a b) c = better a (better b c) := by
+  unfold better
+  split <;> split <;> (try split) <;> (try split) <;> grind
 
-theorem cd_step_int (c : CD) (en : Bool) (d : Int) (dir : Dir) :
-    c.step en (d : Rat) dir = stepI c (en, d, dir) := by
-  unfold CD.step stepI
-  simp only [Rat.intCast_lt_intCast, lround_intCast]
+theorem foldl_better_assoc (a : Rat × Dir) : ∀ (ys : List (Rat × Dir)) (x : Rat × Dir),
+    ys.foldl better (better a x) = better a (ys.foldl better x) := by
+  intro ys
+  induction ys with
+  | nil => intro x; rfl
+  | cons y ys ih =>
+    intro x
+    rw [List.foldl_cons, List.foldl_cons, better_assoc, ih]
 
-theorem closestI_spec (l : List (Bool × Int × Dir)) (c : CD) :
-    (l.foldl stepI c).mind ≤ c.mind ∧
-    (∀ t ∈ l, t.1 = true → (l.foldl stepI c).mind ≤ t.2.1) ∧
-    (l.foldl stepI c = c ∨ ∃ t ∈ l, t.1 = true ∧ l.foldl stepI c = ⟨t.2.1, t.2.1, t.2.2⟩) := by
-  induction l generalizing c with
-  | nil => simp
-  | cons t ts ih =>
-    simp only [List.foldl_cons, List.mem_cons]
-    obtain ⟨h1, h2, h3⟩ := ih (stepI c t)
-    by_cases hc : t.1 = true ∧ t.2.1 < c.mind
-    · have hs : stepI c t = ⟨t.2.1, t.2.1, t.2.2⟩ := by simp only [stepI, hc, and_self, if_true]
-      rw [hs] at h1 h2 h3 ⊢
-      simp only at h1
-      refine ⟨by omega, ?_, ?_⟩
-      · intro t' ht' hen
-        rcases ht' with rfl | ht'
-        · exact h1
-        · exact h2 t' ht' hen
-      · right
-        rcases h3 with h3 | ⟨t', ht', hen, he⟩
-        · exact ⟨t, Or.inl rfl, hc.1, h3⟩
-        · exact ⟨t', Or.inr ht', hen, he⟩
-    · have hs : stepI c t = c := by simp only [stepI, hc, if_false]
-      rw [hs] at h1 h2 h3 ⊢
-      refine ⟨h1, ?_, ?_⟩
-      · intro t' ht' hen
-        rcases ht' with rfl | ht'
-        · have : ¬ t'.2.1 < c.mind := fun hlt => hc ⟨hen, hlt⟩
-          omega
-        · exact h2 t' ht' hen
-      · rcases h3 with h3 | ⟨t', ht', hen, he⟩
-        · exact Or.inl h3
-        · exact Or.inr ⟨t', Or.inr ht', hen, he⟩
+/-- Running choice with `none` = nothing met yet. -/
+def betterOpt (acc : Option (Rat × Dir)) (x : Rat × Dir) : Option (Rat × Dir) :=
+  match acc with
+  | none => some x
+  | some a => some (better a x)
 
-theorem closestDirection_int (dirs : Dirs) (ns ew : Int) (i j : Int) (b : Box) :
-    closestDirection dirs (ns : Rat) (ew : Rat) i j b =
-      (([(dirs.n, (i - b.n) * ns, Dir.N), (dirs.s, (b.s - i) * ns, Dir.S),
-         (dirs.e, (b.e - j) * ew, Dir.E), (dirs.w, (j - b.w) * ew, Dir.W)].foldl stepI ⟨intMax, 0, .N⟩).dist,
-       ([(dirs.n, (i - b.n) * ns, Dir.N), (dirs.s, (b.s - i) * ns, Dir.S),
-         (dirs.e, (b.e - j) * ew, Dir.E), (dirs.w, (j - b.w) * ew, Dir.W)].foldl stepI ⟨intMax, 0, .N⟩).dir) := by
-  unfold closestDirection
-  simp only [← Rat.intCast_mul, cd_step_int, List.foldl_cons, List.foldl_nil]
+/-- Strict-`<` scan of a list from the start value `acc`. -/
+def firstMin (acc : Option (Rat × Dir)) (l : List (Rat × Dir)) : Option (Rat × Dir) :=
+  l.foldl betterOpt acc
 
-/-- With integer resolutions `closest_direction` returns an enabled side at minimal distance. -/
-theorem closestDirection_spec (dirs : Dirs) (ns ew : Int) (c : Cell) (b : Box)
+theorem firstMin_some (a : Rat × Dir) : ∀ (l : List (Rat × Dir)),
+    firstMin (some a) l = some (l.foldl better a) := by
+  intro l
+  induction l generalizing a with
+  | nil => rfl
+  | cons x xs ih => exact ih (better a x)
+
+theorem firstMin_none_cons (x : Rat × Dir) (xs : List (Rat × Dir)) :
+    firstMin none (x :: xs) = some (xs.foldl better x) := firstMin_some x xs
+
+theorem firstMin_append (acc : Option (Rat × Dir)) (l1 l2 : List (Rat × Dir)) :
+    firstMin acc (l1 ++ l2) = firstMin (firstMin acc l1) l2 := by
+  unfold firstMin; rw [List.foldl_append]
+
+/-- Scanning a non-empty block from `acc` is one comparison of `acc` with the block's own first
+    minimum (left-biased minimum is associative). -/
+theorem firstMin_block (acc : Option (Rat × Dir)) (l : List (Rat × Dir)) (m : Rat × Dir)
+    (h : firstMin none l = some m) : firstMin acc l = betterOpt acc m := by
+  cases l with
+  | nil => cases h
+  | cons x xs =>
+    rw [firstMin_none_cons] at h
+    cases h
+    cases acc with
+    | none => exact firstMin_none_cons x xs
+    | some a =>
+      rw [firstMin_some, List.foldl_cons, foldl_better_assoc]
+      rfl
+
+/-- The result of the scan sits at a position of the list such that everything before it is
+    strictly farther and everything after it is at least as far. -/
+theorem foldl_better_split : ∀ (l : List (Rat × Dir)) (a : Rat × Dir),
+    ∃ pre post, a :: l = pre ++ (l.foldl better a) :: post ∧
+      (∀ x ∈ pre, (l.foldl better a).1 < x.1) ∧ (∀ y ∈ post, (l.foldl better a).1 ≤ y.1) := by
+  intro l
+  induction l with
+  | nil => intro a; exact ⟨[], [], rfl, by simp, by simp⟩
+  | cons x xs ih =>
+    intro a
+    rw [List.foldl_cons]
+    obtain ⟨pre, post, hsplit, hpre, hpost⟩ := ih (better a x)
+    generalize xs.foldl better (better a x) = m at hsplit hpre hpost ⊢
+    by_cases hlt : x.1 < a.1
+    · have hb : better a x = x := by simp [better, hlt]
+      rw [hb] at hsplit
+      have hx : m.1 ≤ x.1 := by
+        cases pre with
+        | nil =>
+          simp only [List.nil_append, List.cons.injEq] at hsplit
+          rw [hsplit.1]; exact Rat.le_refl
+        | cons p ps =>
+          simp only [List.cons_append, List.cons.injEq] at hsplit
+          have := hpre p (by simp)
+          rw [← hsplit.1] at this
+          exact Rat.le_of_lt this
+      refine ⟨a :: pre, post, by rw [hsplit]; rfl, ?_, hpost⟩
+      intro y hy
+      rcases List.mem_cons.mp hy with rfl | hy
+      · grind
+      · exact hpre y hy
+    · have hb : better a x = a := by simp [better, hlt]
+      rw [hb] at hsplit
+      have hax : a.1 ≤ x.1 := Rat.not_lt.mp hlt
+      cases pre with
+      | nil =>
+        simp only [List.nil_append, List.cons.injEq] at hsplit
+        refine ⟨[], x :: xs, by rw [hsplit.1]; rfl, by simp, ?_⟩
+        intro y hy
+        rcases List.mem_cons.mp hy with rfl | hy
+        · rw [← hsplit.1]; exact hax
+        · rw [hsplit.2] at hy; exact hpost y hy
+      | cons p ps =>
+        simp only [List.cons_append, List.cons.injEq] at hsplit
+        refine ⟨a :: x :: ps, post, by rw [hsplit.2]; rfl, ?_, hpost⟩
+        have hma : m.1 < a.1 := by rw [hsplit.1]; exact hpre p (by simp)
+        intro y hy
+        rcases List.mem_cons.mp hy with rfl | hy
+        · exact hma
+        · rcases List.mem_cons.mp hy with rfl | hy
+          · grind
+          · exact hpre y (by simp [hy])
+
+/-! ### closest direction: exact distances -/
+
+theorem dblMax_pos : (0 : Rat) < (dblMax : Rat) := by
+  have h : (0 : Int) < dblMax := by decide +kernel
+  exact_mod_cast h
+
+/-- The (exact distance, side) pairs of one cell: enabled sides of box `b`, order N, S, E, W. -/
+def cellCands (dirs : Dirs) (ns ew : Rat) (c : Cell) (b : Box) : List (Rat × Dir) :=
+  (fourDirs.filter dirs.enabled).map fun d => (sideDist b ns ew c d, d)
+
+/-- The state of `closest_direction` after some of its four `if`s, related to a strict-`<` scan. -/
+def CD.Rel (c : CD) (acc : Option (Rat × Dir)) : Prop :=
+  (acc = none ∧ c = CD.init) ∨ (∃ a, acc = some a ∧ c = ⟨a.1, a.1, a.2⟩ ∧ a.1 < (dblMax : Rat))
+
+theorem cd_step_rel (c : CD) (acc : Option (Rat × Dir)) (en : Bool) (x : Rat) (d : Dir)
+    (h : c.Rel acc) (hx : x < (dblMax : Rat)) :
+    (c.step en x d).Rel (if en = true then betterOpt acc (x, d) else acc) := by
+  cases en with
+  | false => simpa [CD.step] using h
+  | true =>
+    simp only [CD.step, true_and, if_true]
+    rcases h with ⟨rfl, rfl⟩ | ⟨a, rfl, rfl, ha⟩
+    · have : x < CD.init.mind := hx
+      rw [if_pos this]
+      exact Or.inr ⟨(x, d), rfl, rfl, hx⟩
+    · simp only [betterOpt, better]
+      by_cases hlt : x < a.1
+      · rw [if_pos hlt, if_pos hlt]
+        exact Or.inr ⟨(x, d), rfl, rfl, hx⟩
+      · rw [if_neg hlt, if_neg hlt]
+        exact Or.inr ⟨a, rfl, rfl, ha⟩
+
+theorem firstMin_cellCands (dirs : Dirs) (f : Dir → Rat × Dir) (acc : Option (Rat × Dir)) :
+    firstMin acc ((fourDirs.filter dirs.enabled).map f) =
+      (if dirs.w = true then betterOpt
+        (if dirs.e = true then betterOpt
+          (if dirs.s = true then betterOpt
+            (if dirs.n = true then betterOpt acc (f .N) else acc) (f .S)
+           else (if dirs.n = true then betterOpt acc (f .N) else acc)) (f .E)
+         else (if dirs.s = true then betterOpt
+            (if dirs.n = true then betterOpt acc (f .N) else acc) (f .S)
+           else (if dirs.n = true then betterOpt acc (f .N) else acc))) (f .W)
+       else (if dirs.e = true then betterOpt
+          (if dirs.s = true then betterOpt
+            (if dirs.n = true then betterOpt acc (f .N) else acc) (f .S)
+           else (if dirs.n = true then betterOpt acc (f .N) else acc)) (f .E)
+         else (if dirs.s = true then betterOpt
+            (if dirs.n = true then betterOpt acc (f .N) else acc) (f .S)
+           else (if dirs.n = true then betterOpt acc (f .N) else acc)))) := by
+  obtain ⟨n, s, e, w⟩ := dirs
+  cases n <;> cases s <;> cases e <;> cases w <;> rfl
+
+/-- `closest_direction` returns the first minimum of the cell's candidates (all of which are
+    below the start value `DBL_MAX`), with the exact distance. -/
+theorem closestDirection_firstMin (dirs : Dirs) (ns ew : Rat) (c : Cell) (b : Box)
     (hen : ∃ d, dirs.enabled d = true)
-    (hb : ∀ d, dirs.enabled d = true → sideDist b ns ew c d < intMax) :
-    dirs.enabled (closestDirection dirs (ns : Rat) (ew : Rat) c.1 c.2 b).2 = true ∧
-    (closestDirection dirs (ns : Rat) (ew : Rat) c.1 c.2 b).1 =
-      sideDist b ns ew c (closestDirection dirs (ns : Rat) (ew : Rat) c.1 c.2 b).2 ∧
-    ∀ d, dirs.enabled d = true →
-      (closestDirection dirs (ns : Rat) (ew : Rat) c.1 c.2 b).1 ≤ sideDist b ns ew c d := by
-  rw [closestDirection_int]
-  generalize hl : [(dirs.n, (c.1 - b.n) * ns, Dir.N), (dirs.s, (b.s - c.1) * ns, Dir.S),
-         (dirs.e, (b.e - c.2) * ew, Dir.E), (dirs.w, (c.2 - b.w) * ew, Dir.W)] = l
-  -- every entry is (enabled d, sideDist d, d), and every direction has an entry
-  have hform : ∀ t ∈ l, t.1 = dirs.enabled t.2.2 ∧ t.2.1 = sideDist b ns ew c t.2.2 := by
-    subst hl; intro t ht
-    simp only [List.mem_cons, List.not_mem_nil, or_false] at ht
-    rcases ht with rfl | rfl | rfl | rfl <;> exact ⟨rfl, rfl⟩
-  have hall : ∀ d, dirs.enabled d = true → ∃ t ∈ l, t.2.2 = d := by
-    subst hl; intro d hd
-    cases d with
-    | N => exact ⟨(dirs.n, (c.1 - b.n) * ns, Dir.N), by simp, rfl⟩
-    | S => exact ⟨(dirs.s, (b.s - c.1) * ns, Dir.S), by simp, rfl⟩
-    | E => exact ⟨(dirs.e, (b.e - c.2) * ew, Dir.E), by simp, rfl⟩
-    | W => exact ⟨(dirs.w, (c.2 - b.w) * ew, Dir.W), by simp, rfl⟩
-    | none => simp [Dirs.enabled] at hd
-  obtain ⟨h1, h2, h3⟩ := closestI_spec l ⟨intMax, 0, .N⟩
-  have hmin : ∀ d, dirs.enabled d = true → (l.foldl stepI ⟨intMax, 0, .N⟩).mind ≤ sideDist b ns ew c d := by
-    intro d hd
-    obtain ⟨t, ht, rfl⟩ := hall d hd
-    have hf := hform t ht
-    have := h2 t ht (by rw [hf.1]; exact hd)
-    rw [hf.2] at this; exact this
-  rcases h3 with h3 | ⟨t, ht, hten, he⟩
-  · exfalso
+    (hb : ∀ d, sideDist b ns ew c d < (dblMax : Rat)) :
+    firstMin none (cellCands dirs ns ew c b) = some (closestDirection dirs ns ew c.1 c.2 b) ∧
+    (closestDirection dirs ns ew c.1 c.2 b).1 < (dblMax : Rat) := by
+  have r0 : CD.init.Rel none := Or.inl ⟨rfl, rfl⟩
+  have r1 := cd_step_rel _ _ dirs.n _ .N r0 (hb .N)
+  have r2 := cd_step_rel _ _ dirs.s _ .S r1 (hb .S)
+  have r3 := cd_step_rel _ _ dirs.e _ .E r2 (hb .E)
+  have r4 := cd_step_rel _ _ dirs.w _ .W r3 (hb .W)
+  have hfm := firstMin_cellCands dirs (fun d => (sideDist b ns ew c d, d)) none
+  unfold cellCands
+  rw [hfm]
+  have hne : (fourDirs.filter dirs.enabled).map (fun d => (sideDist b ns ew c d, d)) ≠ [] := by
     obtain ⟨d, hd⟩ := hen
-    have := hmin d hd
-    have := hb d hd
-    rw [h3] at *
-    simp only at *
-    omega
-  · have hf := hform t ht
-    rw [he] at hmin ⊢
-    simp only at hmin ⊢
-    refine ⟨by rw [← hf.1]; exact hten, hf.2, ?_⟩
-    intro d hd
-    exact hmin d hd
+    have hm : d ∈ fourDirs.filter dirs.enabled := by
+      refine List.mem_filter.mpr ⟨?_, hd⟩
+      cases d <;> simp [fourDirs, Dirs.enabled] at hd ⊢
+    intro h
+    rw [List.map_eq_nil_iff] at h
+    rw [h] at hm; simp at hm
+  rcases r4 with ⟨hnone, _⟩ | ⟨a, hsome, hc4, ha⟩
+  · exfalso
+    rw [← hfm] at hnone
+    cases hl : (fourDirs.filter dirs.enabled).map (fun d => (sideDist b ns ew c d, d)) with
+    | nil => exact hne hl
+    | cons x xs => rw [hl, firstMin_none_cons] at hnone; cases hnone
+  · have hcd : closestDirection dirs ns ew c.1 c.2 b = a := by
+      simp only [sideDist] at hc4
+      simp only [closestDirection, hc4]
+    rw [hcd]
+    exact ⟨hsome, ha⟩
 
 /-! ### the loop of `action` -/
 
 theorem escapeLoop_escape (q : Quarantine) (inf areas : IRaster) :
-    ∀ (cells : List Cell) (acc : Option (Int × Dir)),
+    ∀ (cells : List Cell) (acc : Option (Rat × Dir)),
       (∀ c ∈ cells, inf.at c.1 c.2 ≠ 0 → areas.at c.1 c.2 ≠ 0 → lookupBox q.table (areas.at c.1 c.2) ≠ none) →
       (∃ c ∈ cells, inf.at c.1 c.2 ≠ 0 ∧ areas.at c.1 c.2 = 0) →
       escapeLoop q inf areas cells acc = .ok none := by
@@ -262,77 +348,76 @@ theorem escapeLoop_escape (q : Quarantine) (inf areas : IRaster) :
           · exact absurd h2 ha
           · exact ⟨x, hx, h1, h2⟩
 
-/-- No infected cell with area 0: the loop ends with a running minimum `acc'` that is either the
-    start value or the result of `closest_direction` for an infected cell, and that is not larger
-    than the start value nor than the result for any infected cell. -/
-theorem escapeLoop_contained (q : Quarantine) (inf areas : IRaster) :
-    ∀ (cells : List Cell) (acc : Option (Int × Dir)),
+/-- No infected cell with area 0 and every needed table lookup succeeds: the loop runs to its end. -/
+theorem escapeLoop_no_escape (q : Quarantine) (inf areas : IRaster) :
+    ∀ (cells : List Cell) (acc : Option (Rat × Dir)),
       (∀ c ∈ cells, inf.at c.1 c.2 ≠ 0 → areas.at c.1 c.2 ≠ 0 ∧ lookupBox q.table (areas.at c.1 c.2) ≠ none) →
-      ∃ acc', escapeLoop q inf areas cells acc = .ok (some acc') ∧
-        (acc' = acc ∨ ∃ c ∈ cells, inf.at c.1 c.2 ≠ 0 ∧ ∃ b, lookupBox q.table (areas.at c.1 c.2) = some b ∧
-            acc' = some (closestDirection q.dirs q.ns q.ew c.1 c.2 b)) ∧
-        (∀ m, acc = some m → ∃ m', acc' = some m' ∧ m'.1 ≤ m.1) ∧
-        (∀ c ∈ cells, inf.at c.1 c.2 ≠ 0 → ∀ b, lookupBox q.table (areas.at c.1 c.2) = some b →
-            ∃ m', acc' = some m' ∧ m'.1 ≤ (closestDirection q.dirs q.ns q.ew c.1 c.2 b).1) := by
+      ∃ acc', escapeLoop q inf areas cells acc = .ok (some acc') := by
   intro cells
   induction cells with
-  | nil => intro acc _; exact ⟨acc, rfl, Or.inl rfl, fun m hm => ⟨m, hm, Int.le_refl _⟩, by simp⟩
+  | nil => intro acc _; exact ⟨acc, rfl⟩
   | cons c cs ih =>
     intro acc hok
     have hok' : ∀ x ∈ cs, inf.at x.1 x.2 ≠ 0 → areas.at x.1 x.2 ≠ 0 ∧ lookupBox q.table (areas.at x.1 x.2) ≠ none :=
       fun x hx => hok x (by simp [hx])
     unfold escapeLoop
     by_cases h0 : inf.at c.1 c.2 = 0
-    · rw [if_pos h0]
-      obtain ⟨acc', hrun, hsrc, hle, hmin⟩ := ih acc hok'
-      refine ⟨acc', hrun, ?_, hle, ?_⟩
-      · rcases hsrc with h | ⟨x, hx, h⟩
-        · exact Or.inl h
-        · exact Or.inr ⟨x, by simp [hx], h⟩
-      · intro x hx hxi b hb
-        rcases List.mem_cons.mp hx with rfl | hx
-        · exact absurd h0 hxi
-        · exact hmin x hx hxi b hb
+    · rw [if_pos h0]; exact ih acc hok'
     · rw [if_neg h0]
       obtain ⟨ha, hl⟩ := hok c (by simp) h0
       rw [if_neg ha]
       cases hb : lookupBox q.table (areas.at c.1 c.2) with
       | none => exact absurd hb hl
-      | some b =>
-        simp only
-        generalize hdd : closestDirection q.dirs q.ns q.ew c.1 c.2 b = dd
-        obtain ⟨acc', hrun, hsrc, hle, hmin⟩ := ih (if closer dd.1 acc then some dd else acc) hok'
-        -- the new running value is not larger than the old one nor than `dd`
-        have hnew : (∀ m, acc = some m → ∃ m', (if closer dd.1 acc then some dd else acc) = some m' ∧ m'.1 ≤ m.1) ∧
-            ∃ m', (if closer dd.1 acc then some dd else acc) = some m' ∧ m'.1 ≤ dd.1 := by
-          cases acc with
-          | none => simp [closer]
-          | some m =>
-            by_cases hlt : dd.1 < m.1
-            · simp only [closer, hlt, decide_true, if_true]
-              exact ⟨fun m0 hm0 => ⟨dd, rfl, by cases hm0; omega⟩, dd, rfl, Int.le_refl _⟩
-            · simp only [closer, hlt, decide_false, Bool.false_eq_true, if_false]
-              exact ⟨fun m0 hm0 => ⟨m, rfl, by cases hm0; omega⟩, m, rfl, by omega⟩
-        refine ⟨acc', hrun, ?_, ?_, ?_⟩
-        · rcases hsrc with h | ⟨x, hx, h⟩
-          · by_cases hcl : closer dd.1 acc = true
-            · right
-              refine ⟨c, by simp, h0, b, hb, ?_⟩
-              rw [h, if_pos hcl, hdd]
-            · left; rw [h, if_neg hcl]
-          · exact Or.inr ⟨x, by simp [hx], h⟩
-        · intro m hm
-          obtain ⟨m1, hm1, hle1⟩ := hnew.1 m hm
-          obtain ⟨m2, hm2, hle2⟩ := hle m1 hm1
-          exact ⟨m2, hm2, by omega⟩
-        · intro x hx hxi bx hbx
-          rcases List.mem_cons.mp hx with rfl | hx
-          · rw [hb] at hbx
-            cases hbx
-            obtain ⟨m1, hm1, hle1⟩ := hnew.2
-            obtain ⟨m2, hm2, hle2⟩ := hle m1 hm1
-            exact ⟨m2, hm2, by rw [hdd]; omega⟩
-          · exact hmin x hx hxi bx hbx
+      | some b => exact ih _ hok'
+
+/-- What the infected listed cells need for the distance search: a positive id whose table entry
+    is the definitional box `b` of the cell's own area, every side of which is nearer than the start
+    value `DBL_MAX`. -/
+def CellOK (q : Quarantine) (areas : IRaster) (c : Cell) : Prop :=
+  areas.at c.1 c.2 ≠ 0 ∧ ∃ b, lookupBox q.table (areas.at c.1 c.2) = some b ∧
+    specAreaBox areas (areas.at c.1 c.2) = some b ∧ ∀ d, sideDist b q.ns q.ew c d < (dblMax : Rat)
+
+/-- No infected cell with area 0: the loop ends with the strict-`<` scan, from its start value,
+    of all candidates (infected cell, enabled side) in list order. -/
+theorem escapeLoop_contained (q : Quarantine) (inf areas : IRaster) (hen : ∃ d, q.dirs.enabled d = true) :
+    ∀ (cells : List Cell) (acc : Option (Rat × Dir)),
+      (∀ c ∈ cells, inf.at c.1 c.2 ≠ 0 → CellOK q areas c) →
+      escapeLoop q inf areas cells acc =
+        .ok (some (firstMin acc (nearestCandidates inf areas cells q.dirs q.ns q.ew))) := by
+  intro cells
+  induction cells with
+  | nil => intro acc _; rfl
+  | cons c cs ih =>
+    intro acc hok
+    have hok' : ∀ x ∈ cs, inf.at x.1 x.2 ≠ 0 → CellOK q areas x := fun x hx => hok x (by simp [hx])
+    unfold escapeLoop
+    by_cases h0 : inf.at c.1 c.2 = 0
+    · rw [if_pos h0, ih acc hok']
+      have : presentCells inf (c :: cs) = presentCells inf cs := by
+        simp [presentCells, h0]
+      unfold nearestCandidates
+      rw [this]
+    · rw [if_neg h0]
+      obtain ⟨ha, b, hl, hsb, hbd⟩ := hok c (by simp) h0
+      rw [if_neg ha, hl]
+      simp only
+      have hp : presentCells inf (c :: cs) = c :: presentCells inf cs := by
+        simp [presentCells, h0]
+      have hc : nearestCandidates inf areas (c :: cs) q.dirs q.ns q.ew =
+          cellCands q.dirs q.ns q.ew c b ++ nearestCandidates inf areas cs q.dirs q.ns q.ew := by
+        unfold nearestCandidates
+        rw [hp, List.flatMap_cons, hsb]
+        rfl
+      obtain ⟨hfm, hlt⟩ := closestDirection_firstMin q.dirs q.ns q.ew c b hen hbd
+      rw [hc, firstMin_append, firstMin_block acc _ _ hfm, ih _ hok']
+      congr 3
+      generalize closestDirection q.dirs q.ns q.ew c.1 c.2 b = dd at hlt
+      cases acc with
+      | none => simp [closer, betterOpt, hlt]
+      | some m =>
+        by_cases h : dd.1 < m.1
+        · simp [closer, betterOpt, better, h]
+        · simp [closer, betterOpt, better, h]
 
 /-! ### runs -/
 
